@@ -122,3 +122,16 @@ func init() {
 			"\tcase *vector.Const:\n\t\t// Every non-null slot holds the same value.\n\t\tvar n int64\n\t\tfor slot := uint32(0); slot < vec.Len(); slot++ {\n\t\t\tif !vec.Nulls.Value(slot) {\n\t\t\t\tn++\n\t\t\t}\n\t\t}\n\t\tswitch id := vec.Type().ID(); {\n\t\tcase zed.IsSigned(id):\n\t\t\tc.sum += vec.Value().Int() * n\n\t\tcase zed.IsUnsigned(id):\n\t\t\tc.sum += int64(vec.Value().Uint()) * n\n\t\t}\n", "", "C09-X2", "lacks Const"},
 	)
 }
+
+func init() {
+	addMutants(
+		Mutant{"C03", "c03-net-slice-unallocated", "runtime/vcache/loader.go", "loader.loadVals",
+			"values := make([]netip.Prefix, length)", "var values []netip.Prefix", "C03-X1", "indexes a nil slice"},
+		Mutant{"C03", "c03-projection-prefix-narrowed", "runtime/vcache/path.go", "insertPath",
+			"if len(existing) == 1 || len(addition) == 1 {", "if len(existing) == 0 && len(addition) == 0 {", "C03-P1", "descends below a common head"},
+		Mutant{"C20", "c20-merge-not-idempotent", "runtime/sam/expr/agg/schema.go", "merge",
+			"\tif a == b {\n\t\treturn a\n\t}\n", "", "C20-M3", "builds the union of its two operands"},
+		Mutant{"C20", "c20-shaper-keyed-by-underlying-id", "runtime/sam/expr/shaper.go", "ConstShaper.Eval",
+			"key := zed.TypeID(val.Type())", "key := val.Type().ID()", "C20-R2", "the shaper cache"},
+	)
+}
